@@ -25,6 +25,17 @@
 (*        expand() calls on the same page over the same families; law:        *)
 (*        independence of constructs - every parse has the written structure  *)
 (*        of ITS text and the machine tree does not depend on the history     *)
+(*   "ATTR" : written attributes: the CHARACTERS of one attribute value (the   *)
+(*        quote character of the other kind at its start / end / both / inside *)
+(*        / alone, blanks, = > &amp; and URL punctuation inside, empty) x its   *)
+(*        own DELIMITERS (" ' none, blanks around =) x the rest of the map     *)
+(*        (alone, after / before plain attributes written each way, before a   *)
+(*        second value with an apostrophe) x the SITE (start tag of an element *)
+(*        alone / in running text / in a cell; {| line, |+ caption, first and  *)
+(*        later |- line, first / second header cell, first / second data cell  *)
+(*        of a 2x2 table, one cell per line and || / !! separated, spaced and  *)
+(*        tight).  Expected map = TreeOf: the written value, i.e. what stands  *)
+(*        between the ONE pair of delimiters ("ATTRT": full cross, thorough)   *)
 (*   "FILE" : pages read from IOEnv.PAGES_FILE (random wider grids, V)        *)
 (* Part/Parts split a universe over parallel TLC processes.                   *)
 EXTENDS ParserStruct, Json, IOUtils
@@ -141,6 +152,61 @@ ElMaps == HM \o HMU
 Elements(z) == { Surround(v[3], Ht(t, ElMaps[v[1]], ElContent(t, v[2]))) :
                 t \in PairedTags,
                 v \in {w \in (1..Len(ElMaps)) \X (1..3) \X (1..3) : (w[1] * 9 + w[2] * 3 + w[3]) % Parts = Part} }
+
+(* ---------------- written attributes: characters of a value x delimiters x site ---------------- *)
+WA(n, w, q, eq) == [n |-> n, w |-> w, q |-> q, eq |-> eq]
+OtherQuote(q) == IF q = "sq" THEN "\"" ELSE "'"
+\* the characters of a quoted value; o = the quote character of the OTHER kind than its delimiters
+QuotedShapes(o) ==
+  << <<"w1">>,                                   \* a plain word (control)
+     <<o, "w1", o>>,                             \* the other quote at both ends       "'w1'"
+     <<"w1", o>>,                                \* ... at the end                     "w1'"
+     <<o, "w1">>,                                \* ... at the start                   "'w1"
+     <<"it", o, "s">>,                           \* ... inside                         "it's"
+     <<o>>,                                      \* the value is that one character    "'"
+     <<>>,                                       \* the empty value                    ""
+     <<"the", "SP", "dogs", o>>,                 \* blank inside, quote at the end
+     <<"k", "=", "v1">>,                         \* looks like an assignment
+     <<"a1", ">", "b1">>,                        \* > inside quotes
+     <<"a1", "&", "amp", ";", "b1">>,            \* an entity spelling
+     <<"a-b", ":", "x~y", ";", "v.1">>,          \* URL punctuation
+     <<o, "a1", o, "SP", o, "b1", o>> >>         \* two quoted words
+UnquotedShapes == << <<"w1">>, <<"x~y">>, <<"a-b", ":", "x~y", ";", "v.1">> >>
+\* the attribute under test: [i, special]
+Specials(z) ==
+  { <<i, WA("title", QuotedShapes(OtherQuote(q))[i], q, i % 2 = 0)>> : i \in 1..Len(QuotedShapes("'")), q \in {"dq", "sq"} }
+  \cup { <<i, WA("title", UnquotedShapes[i], "none", i % 2 = 0)>> : i \in 1..Len(UnquotedShapes) }
+\* the rest of the map
+WithCompanion(sp, c) ==
+  CASE c = 0 -> <<sp>>
+    [] c = 1 -> <<Attr("id", "x1"), sp>>                                   \* written the way the table style says
+    [] c = 2 -> <<sp, WA("class", <<"a-b">>, "none", FALSE)>>
+    [] c = 3 -> <<sp, WA("lang", <<"it", "'", "s">>, "dq", TRUE)>>
+    [] c = 4 -> <<WA("lang", <<"fi">>, "sq", FALSE), sp>>
+TableSites == <<"table", "caption", "row1", "row2", "hdr1", "hdr2", "cell1", "cell2">>
+AttrTable(site, m, sep, sp, k) ==
+  LET At(s) == IF site = s THEN m ELSE <<>>
+      hascap == site = "caption" \/ k % 3 = 0
+  IN [k |-> "TB", tattrs |-> At("table"), hascap |-> hascap, cattrs |-> At("caption"),
+      caption |-> IF hascap THEN W("c1") ELSE <<>>,
+      rows |-> << [rattrs |-> At("row1"), cells |-> <<Cell("hdr", At("hdr1"), W("h1")), Cell("hdr", At("hdr2"), W("h2"))>>],
+                  [rattrs |-> At("row2"), cells |-> <<Cell("data", At("cell1"), W("a1")), Cell("data", At("cell2"), W("b1"))>>] >>,
+      style |-> [Sty(sep, sp, Quote[(k % 3) + 1], k % 2 = 0) EXCEPT !.hbar = k % 4 = 1]]
+AttrTags == {"span", "div", "abbr"} \cap PairedTags
+AttrFull == Universe = "ATTRT"
+\* quick ("ATTR"): every value x delimiters at every site in both separator styles with two of the five
+\* companions and one spacing, in every tag with every companion and one surrounding; thorough ("ATTRT"): the
+\* full cross.  (parameter tuples are filtered before any page is built)
+SKey(s) == s[1] + (IF s[2].q = "sq" THEN 1 ELSE 0)
+KeepT(s, c, si, sp) == AttrFull \/ (c \in {(SKey(s) + si) % 5, (SKey(s) + si + 2) % 5} /\ sp = ((SKey(s) + si + c) % 2 = 0))
+KeepH(s, c, t, sn) == AttrFull \/ sn = (IF t = "span" THEN ((SKey(s) + c) % 3) + 1 ELSE 1)
+AttrPagesAll(z) ==
+  { <<AttrTable(TableSites[v[3]], WithCompanion(v[1][2], v[2]), v[4], v[5], v[1][1] + v[2] + v[3])>> :
+      v \in { w \in Specials(z) \X (0..4) \X (1..Len(TableSites)) \X {"line", "inline"} \X BOOLEAN :
+               KeepT(w[1], w[2], w[3], w[5]) } }
+  \cup { Surround(v[4], Ht(v[3], WithCompanion(v[1][2], v[2]), W("x1"))) :
+      v \in { w \in Specials(z) \X (0..4) \X AttrTags \X (1..3) : KeepH(w[1], w[2], w[3], w[4]) } }
+AttrPages(z) == { pg \in AttrPagesAll(z) : Admissible(pg) /\ Len(Render(pg)) % Parts = Part }
 
 (* ---------------- calls and links ---------------- *)
 ArgCat ==
@@ -269,6 +335,7 @@ Pages ==
     [] Universe = "CALL" -> CallPages(0)
     [] Universe \in {"PAIR", "PAIRT"} -> PairPages(0)
     [] Universe \in {"HIST", "HISTT"} -> Histories(0)      \* here `page` is a history: Seq([op, page])
+    [] Universe \in {"ATTR", "ATTRT"} -> AttrPages(0)
     [] Universe = "FILE" -> FilePages(0)
 
 \* `done` only keeps TLC from evaluating the invariant twice per structure
@@ -281,7 +348,9 @@ Spec == Init /\ [][Next]_<<page, done>>
 LawOf(r0) == /\ Admissible(page)
              /\ ~r0.oof
              /\ Equiv(r0.stack[1], TreeOf(page))
-Case(a, r, law) == [page |-> page, text |-> a, mt |-> r.stack[1], cov |-> r.cov, law |-> law]
+\* strict = the page is inside the statement's quantifier (URL-safe attribute values): a disagreement
+\* of the real parser is a VIOLATION; otherwise the model predicts more than the statement says (DRIFT)
+Case(a, r, law) == [page |-> page, text |-> a, mt |-> r.stack[1], cov |-> r.cov, law |-> law, strict |-> UrlSafePage(page)]
 GenInv ==
   done \/ LET a == Render(page)
                r0 == Run(a, {})
@@ -328,6 +397,13 @@ DemoKey(dev) ==
 DemoKeyLineBreaks == DemoKey({"KeyDropsEdgeLineBreaks"})
 DemoKeyTrims == DemoKey({"KeyTrimsArguments"})
 DemoKeyKind == DemoKey({"KeyIgnoresKind"})
+\* Demo: a parse_attrs that takes the delimiters off a quoted value in a way that agrees with "drop the
+\* first and the last character" on every value made of letters (what-if switches of ParserStruct): TLC finds
+\* the written attribute whose value it shortens (universe "ATTR")
+DemoAttr(dev) == done \/ Equiv(Run(Render(page), dev).stack[1], TreeOf(page))
+DemoAttrGreedy == DemoAttr({"QuotesStrippedGreedily"})
+DemoAttrEverywhere == DemoAttr({"QuotesRemovedEverywhere"})
+DemoAttrAnyQuote == DemoAttr({"ValueEndsAtAnyQuote"})
 \* Demo: with the found behaviour of table_cell_fn the law fails (a caption followed by a data cell)
 DemoAsIs == done \/ Equiv(Run(Render(page), AllParserDevs).stack[1], TreeOf(page))
 =============================================================================
